@@ -31,13 +31,14 @@ ASSUMPTIONS = [
 ]
 
 SCRATCH_ROOT = '/dev/shm' if os.path.isdir('/dev/shm') else tempfile.gettempdir()
-COMPONENTS = ['song.mp3', '..', '.', '', '@@abcde', 'C:', 'dir', 'é片.mp3', 'a' * 255, 'song (1).mp3']
+COMPONENTS = ['song.mp3', '..', '.', '', '@@abcde', 'C:', 'dir', 'é片.mp3', 'a' * 255, 'song (1).mp3', 'a+b [x].mp3']
 SEPS = ['\\', '/', '\\\\', '/\\']
 STRATS = {'D': DefaultNamingStrategy, 'K': KeepDirectoryStrategy, 'N': NumberDuplicateStrategy}
 CHAINS = [c for n in (1, 2, 3) for c in itertools.permutations('DKN', n)]
 CONTENTS = {
     'empty': [], 'one': ['song.mp3'], 'two': ['song.mp3', 'song (1).mp3'], 'gap': ['song (2).mp3'],
     'sub': ['dir/song.mp3'], 'dirnamed': ['song.mp3/'],
+    'meta': ['a+b [x].mp3', 'a+b [x] (1).mp3', 'song (1).mp3', 'song (1) (1).mp3'],
 }
 
 
